@@ -42,6 +42,22 @@ def run(prop, tier):
                 continue
             jobs.append({'kind': 'history', 'case': {'id': 'h-%d' % len(jobs), 'class': cls, 'rate': rate, 'seed': vlib.jseed(seed, len(jobs)),
                                                      'hist': c['hist']}})
+    # long behaviours: one hasher object reused across many operations (tlc -simulate on the same specification)
+    nlong, depth = (60, 30) if tier == 'quick' else (1200, 60)
+    nl = 0
+    for cls, rate in [('sponge', 136), ('sponge', 104), ('sha2', 64), ('kmac', 168)]:
+        r = vlib.tlc(SPEC, 'Hasher', vlib.cfg({'Rate': rate, 'Class': cls, 'MaxOps': depth, 'Lens': lens_for(rate) | {7, 8, 9, 31, 64, 100, rate - 9, rate - 8, rate - 7, 3 * rate + 5},
+                                               'Record': True}, invariants=INV + ['Emit']), name='hsim', timeout=1200, workers=1,
+                     extra=['-simulate', 'num=%d' % nlong, '-depth', str(depth + 2), '-seed', str(seed)])
+        if r.violated:
+            raise vlib.Undecided('Hasher simulation %s violates %s' % (cls, r.violated))
+        for c in tlc_cases(r.out):
+            nl += 1
+            jobs.append({'kind': 'history', 'case': {'id': 'hl-%d' % len(jobs), 'class': cls, 'rate': rate, 'seed': vlib.jseed(seed, len(jobs)),
+                                                     'hist': c['hist']}})
+    if nl < nlong * 2:
+        raise vlib.Undecided('Hasher simulation produced only %d long behaviours' % nl)
+    ck.cov['long_behaviours'] = {'count': nl, 'operations_each': depth}
     nhist = len(jobs)
     r = vlib.tlc(SPEC, 'KmacPad', vlib.cfg({'MaxKey': 1200, 'Fixed': True}, invariants=['Holds', 'Emit']), name='kpad')
     if not r.ok:
